@@ -95,15 +95,27 @@ def cases():
     by_id = gens.cell_ids(5, 29).map(lambda c: {"cell": hex(c)})
     by_loc = st.builds(lambda p, r: {"lon": p["lon"], "lat": p["lat"], "res": r, "cls": p["cls"], "shape": True},
                        gens.pts_base(), gens.resolutions(2, 29))
-    return st.one_of(pts, pts, by_id, by_loc)
+    by_edge = gens.edge_scaled_cases(2, 29).map(lambda c: dict(c, shape=True))
+    return st.one_of(pts, pts, by_id, by_loc, gens.edge_scaled_cases(2, 29), by_edge)
 
 
 def stage_hyp(ctx):
     hyp_drive(ctx, cases(), judge, 1500 if ctx.tier == "quick" else 40000)
 
 
+def stage_boundary(ctx):
+    """Cells containing the places where the library's own branches flip (lib/boundary.py)."""
+    from lib import boundary
+    anc = boundary.anchors(ctx, "cell", 100 if ctx.tier == "quick" else 500) + boundary.anchors(ctx, "proj", 100 if ctx.tier == "quick" else 500)
+    if not anc:
+        ctx.col.count("boundary_stage_skipped")
+        return
+    strat = st.builds(lambda p, r: {"lon": p["lon"], "lat": p["lat"], "res": r, "cls": p["cls"], "shape": r % 3 == 0}, boundary.anchor_points(anc), gens.resolutions(2, 29))
+    hyp_drive(ctx, strat, judge, 300 if ctx.tier == "quick" else 10000)
+
+
 def plan(tier):
-    return [Stage("enum", 16, stage_enum, cost=6), Stage("hyp", 16, stage_hyp, cost=6)]
+    return [Stage("enum", 16, stage_enum, cost=6), Stage("hyp", 16, stage_hyp, cost=6), Stage("boundary", 16, stage_boundary, cost=4)]
 
 
 def replay(rec, col):
